@@ -18,6 +18,15 @@ THEOREMS = [
     "BSVerif.Props.C13.writer_bom",
     "BSVerif.Props.C13.rejected_write_emits_nothing",
     "BSVerif.Props.C13.writer_session",
+    "BSVerif.Props.C13.reads_back_of_detect",
+    "BSVerif.Props.C13.read_lossless_bom",
+    "BSVerif.Props.C13.read_lossless_bom'",
+    "BSVerif.Props.C13.chunk_size_irrelevant",
+    "BSVerif.Props.C13.read_lossless_nobom",
+    "BSVerif.Props.C13.read_lossless_nobom'",
+    "BSVerif.Props.C13.read_empty",
+    "BSVerif.Props.C13.session_bytes",
+    "BSVerif.Props.C13.write_then_read",
 ]
 RULE = ("texts with code points of every UTF-8/UTF-16 length placed at every offset around the chunk boundary x 5 encodings x "
         "BOM on/off x 3 target widths x N in {32,36,64,256} x truncation points x both policies, through CEncodedStreamReader; "
